@@ -59,7 +59,9 @@ def _classes():
 
         def _getall_x(self):
             if self.kind == "list":
-                return list(self.data)
+                # like real datasets (`return self.targets`): every second base hands out its STORED list, so a layer that
+                # modifies a bulk result in place corrupts the dataset for later reads
+                return self.data if self.bid % 2 == 1 else list(self.data)
             if self.kind == "tensor":
                 return torch.tensor(self.data, dtype=torch.long)
             return np.array(self.data, dtype=np.int64)
@@ -226,6 +228,9 @@ def run_real(case):
             out["as_list"] = _guard(lambda: conv(getall_as_list, lambda r: isinstance(r, list)))
             out["as_numpy"] = _guard(lambda: conv(getall_as_numpy, lambda r: isinstance(r, C["np"].ndarray)))
             out["as_tensor"] = _guard(lambda: conv(getall_as_tensor, C["torch"].is_tensor))
+            # state carried across calls: reading again (bulk and per sample) must give what the first reads gave
+            out["_again"] = {"getall": _guard(bulk), "items": [_guard(lambda k=k: _decode(ds.getitem_x(k))) for k in case["ks"]],
+                            "len": _guard(lambda: len(ds))}
             out["root"] = _guard(lambda: _bid(ds.root_dataset))
             out["getdim"] = _guard(lambda: ds.getdim_x() - 1)
             out["wrappers"] = _guard(lambda: [[_uid(w), _ty_of(w)] for w in ds.all_wrappers])
@@ -446,6 +451,14 @@ def oracle(case, real):
             key = "indexmaps:balanced" if (spec["t"] == "concat" and spec["bal"]) else "indexmaps:getitem"
             fails.append(Failure(key, f"getitem_x({k}) addresses the wrong underlying sample for {desc}", case, exp, got))
             break
+    ag = real.get("_again")
+    if ag is not None and not has_balanced(spec):
+        for what, first, second in (("getall_x()", real["getall"], ag["getall"]), ("getitem_x", real["items"], ag["items"]),
+                                    ("len", real["len"], ag["len"])):
+            if isinstance(first, (list, int)) and first != second:
+                fails.append(Failure("indexmaps:second-read", f"reading {what} a second time gives something else than the first time "
+                                     f"(an earlier bulk read changed the stack) for {desc}", case, first, second))
+                break
     # bulk accessors
     if size is not None and not has_balanced(spec):
         kind = bulk_kind(spec)
